@@ -36,6 +36,7 @@ type c13SFile struct {
 	Results []vegeta.Result
 	Ext     string // file name extension; encodings are detected from the content, so it carries no meaning
 	Name    string `json:",omitempty"` // != "": the file's whole name (names are names: no character in them means anything to the commands)
+	Pipe    bool   `json:",omitempty"` // the input is a named pipe (process substitution), not a regular file
 }
 
 var c13PctKeys = map[string]bool{"50th": true, "90th": true, "95th": true, "99th": true}
@@ -201,6 +202,7 @@ func runC13Split(c c13Split) error {
 	}
 	defer os.RemoveAll(dir)
 	var files []string
+	var pipes []int // indices of inputs that are to be read through a named pipe
 	var union []vegeta.Result
 	for i, f := range c.Files {
 		name := fmt.Sprintf("in%d%s", i, f.Ext)
@@ -211,6 +213,9 @@ func runC13Split(c c13Split) error {
 		if err != nil {
 			return err
 		}
+		if f.Pipe {
+			pipes = append(pipes, len(files))
+		}
 		files = append(files, p)
 		union = append(union, f.Results...)
 	}
@@ -218,9 +223,30 @@ func runC13Split(c c13Split) error {
 	if err != nil {
 		return err
 	}
+	// every run of a command over the split gets fresh pipes for the piped inputs (a pipe can be read once)
+	npipe := 0
+	withPipes := func() ([]string, error) {
+		out := append([]string(nil), files...)
+		for _, i := range pipes {
+			data, err := os.ReadFile(files[i])
+			if err != nil {
+				return nil, err
+			}
+			npipe++
+			pp, err := slowPipe(dir, fmt.Sprintf("pipe%d", npipe), data, []int{len(data) / 2}, 0)
+			if err != nil {
+				return nil, err
+			}
+			out[i] = pp
+		}
+		return out, nil
+	}
 	lens := make([]string, len(c.Files))
 	for i, f := range c.Files {
 		lens[i] = fmt.Sprintf("%s:%d", f.Codec, len(f.Results))
+		if f.Pipe {
+			lens[i] += "(pipe)"
+		}
 	}
 	desc := fmt.Sprintf("split %v", lens)
 
@@ -228,7 +254,7 @@ func runC13Split(c c13Split) error {
 	rep := func(in []string, name string) (string, error) {
 		out := filepath.Join(dir, name)
 		var rerr error
-		if perr := vh.Try(func() { rerr = report(in, c.Type, out, 0, c.Buckets) }); perr != nil {
+		if perr := vh.Try(func() { rerr = runReport(in, c.Type, out, 0, c.Buckets) }); perr != nil {
 			return "", fmt.Errorf("report -type=%s panics: %v", c.Type, perr)
 		}
 		if rerr != nil {
@@ -237,7 +263,11 @@ func runC13Split(c c13Split) error {
 		b, err := os.ReadFile(out)
 		return string(b), err
 	}
-	gotS, err := rep(files, "report.split")
+	splitArgs, err := withPipes()
+	if err != nil {
+		return err
+	}
+	gotS, err := rep(splitArgs, "report.split")
 	if err != nil {
 		return fmt.Errorf("%s: %v", desc, err)
 	}
@@ -289,10 +319,13 @@ func runC13Split(c c13Split) error {
 
 	// ---- encode
 	outS, outU := filepath.Join(dir, "enc.split"), filepath.Join(dir, "enc.union")
-	if err := encode(files, c.To, outS); err != nil {
+	if splitArgs, err = withPipes(); err != nil {
+		return err
+	}
+	if err := runEncode(splitArgs, c.To, outS); err != nil {
 		return fmt.Errorf("%s: encode: %v", desc, err)
 	}
-	if err := encode([]string{unionFile}, c.To, outU); err != nil {
+	if err := runEncode([]string{unionFile}, c.To, outU); err != nil {
 		return fmt.Errorf("union: encode: %v", err)
 	}
 	rs, err := readResults(outS, c.To, len(union)+1)
@@ -332,7 +365,7 @@ func runC13Split(c c13Split) error {
 		}
 		canon := func(in []string, name string) ([]string, error) {
 			out := filepath.Join(dir, name)
-			if err := encode(in, "json", out); err != nil {
+			if err := runEncode(in, "json", out); err != nil {
 				return nil, err
 			}
 			b, err := os.ReadFile(out)
@@ -355,7 +388,10 @@ func runC13Split(c c13Split) error {
 			sort.Strings(lines)
 			return lines, nil
 		}
-		ls, err1 := canon(files, "encj.split")
+		if splitArgs, err = withPipes(); err != nil {
+			return err
+		}
+		ls, err1 := canon(splitArgs, "encj.split")
 		lu, err2 := canon([]string{ux}, "encj.union")
 		if err1 != nil || err2 != nil {
 			return fmt.Errorf("%s: encode -to json: %v %v", desc, err1, err2)
@@ -414,6 +450,9 @@ func TestC13Commands(t *testing.T) {
 			for i := range c.Files {
 				c.Files[i].Codec = c.Files[0].Codec
 			}
+		}
+		if rapid.IntRange(0, 3).Draw(t, "piped") == 0 {
+			c.Files[rapid.IntRange(0, nf-1).Draw(t, "pipedfile")].Pipe = true
 		}
 		if nf >= 2 && rapid.IntRange(0, 3).Draw(t, "oddnames") == 0 {
 			// names that a shell pattern matcher would read as patterns matching their neighbours
